@@ -61,6 +61,22 @@ def rule_counters_bc(ctx: Ctx, prog: Program) -> None:
         ctx.fn(fn.fq)
         # entry
         _exactly_one(ctx, fn, a.mode, "ALG_BC_NB", _incs(a.entry_events, a.stats, IDX["ALG_BC_NB"]), True, "at the entry of a propagation pass")
+        # every way through the function is a pass: a path that answers without going through the propagation loop (a fast path) counts too
+        for r in a.paths:
+            if r.outcome != "return":
+                continue
+            went = any(e.kind in ("loop", "iter") and e.loop is a.outer for e in r.state.trace)
+            if went:
+                continue
+            own = [e for e in r.state.trace if e.kind == "store" and e.root == a.stats and tuple(e.idx) == (K(IDX["ALG_BC_NB"]),)]
+            if len(own) == 1 and _plus_one(own[0]):
+                ctx.ok("R-COUNTER", f"{fn.name}[{a.mode}]: a pass that answers without entering the propagation loop is counted", nontrivial=False)
+            else:
+                line = next((e.line for e in reversed(r.state.trace) if e.kind == "return"), fn.node.lineno)
+                ctx.violation("R-COUNTER", fn.path, fn.name, "ALG_BC_NB:uncounted-pass", f"{fn.path}:{line}",
+                              f"{fn.name} has a path that answers (line {line}) without going through the propagation loop and with {len(own)} increment(s) of "
+                              "ALG_BC_NB: such a pass -- e.g. one that finds the queue empty -- is not counted, so the number of passes no longer equals "
+                              "1 + choices + backtracks")
         for e in a.entry_events:
             if e.kind == "store" and e.root == a.stats and tuple(e.idx) != (K(IDX["ALG_BC_NB"]),):
                 ctx.violation("R-COUNTER", fn.path, fn.name, "entry-other", f"{fn.path}:{e.line}", f"statistic {show_val(e.idx[0])} modified at the entry of the pass")
